@@ -1,19 +1,25 @@
 import RactorModel.Model.ExitRace
+import RactorModel.Model.WaitForms
 import Driver.Common
 
 /-! Driver for the `ExitRace` model (C06).
 
 ops (written by `harness/hcore/src/bin/exitrace.rs`):
-  `case <cause> <n> <d>`  → `ok <fields> at=<exiter point>`        cause = stop|kill|drain|panic|stoppanic
+  `case <cause> <n> <d> [forms=k,…]` → `ok <fields> at=<exiter point>`   cause = stop|kill|drain|panic|stoppanic;
+                            k = wait|waitT|stop|stopT|kill|killT|drain|drainT|join (the call waiter i makes)
   `step d<i> drain.status`→ `<fields> at=done`
   `succ`                  → `<fields> at=ok|refused`
   `step e <point>`        → `<fields> at=<next|done>`
-  `step w<i> <point>`     → `<fields> at=<next|done>[ ret]`
+  `step w<i> <point>`     → `<fields> at=<next|done>[ ret| ret=<ok|err|timeout>]`
+  `timeout <i>`           → `<fields> at=done ret=<ok|timeout>`
   `abandon <i>`           → `<fields> at=done`
   `end <cause> <n> <sig>` → `<fields> waiters=<r|a|p,…>`
-fields = `st= name= succ= pid= pg= mon= kids= link= sup= post=`
+fields = `st= name= succ= pid= pg= mon= kids= link= sup= post= sp= kp=`
 
-One `step` line = one `ExitRace.step`. The oracle clauses judge the implementation's observations
+One `step` line = one `ExitRace.step`; a waiter's line = the steps of `WaitForms.callStep` its poll
+covers (send step + creation of `Notified` in the first poll; `drain_and_wait`: `drain.close` alone,
+then `drain.status` + marker + creation of `Notified`). A `ret`/`ret=ok` is judged by `formOk` on the
+implementation's snapshot (`premature-return`). The oracle clauses judge the implementation's observations
 only: `premature-return`, `lost-wakeup`, `status-backwards`, `cleanup-twice`, `timeout-effect`,
 `not-stopped-at-end`, `successor-lost-name`.
 -/
@@ -23,9 +29,10 @@ open _root_.ExitRace Driver
 
 def b01 (b : Bool) : String := if b then "1" else "0"
 
-def showFields (g : G) (unsup : Bool := false) : String :=
+def showFields (g : G) (ports : Ports) (unsup : Bool := false) : String :=
   let f := g.sh.flags
-  s!"st={g.sh.status} name={b01 (g.sh.name == .self)} succ={b01 (g.sh.name == .succ)} pid={b01 !f.unregPid} pg={b01 !f.pgLeft} mon={b01 !f.pgDemon} kids={if f.terminated then 0 else 1} link={b01 !f.unlinked} sup={if unsup then 0 else if f.supNotified then 2 else 1} post={b01 f.postStop}"
+  let kid : Kid := { g := g, ports := ports }
+  s!"st={g.sh.status} name={b01 (g.sh.name == .self)} succ={b01 (g.sh.name == .succ)} pid={b01 !f.unregPid} pg={b01 !f.pgLeft} mon={b01 !f.pgDemon} kids={if f.terminated then 0 else 1} link={b01 !f.unlinked} sup={if unsup then 0 else if f.supNotified then 2 else 1} post={b01 f.postStop} sp={b01 kid.stopOpen} kp={b01 kid.signalOpen}"
 
 def exiterAt (g : G) : String := g.exiter.pc.point
 
@@ -46,15 +53,60 @@ structure Case where
 
 structure St where
   g : G := {}
+  ports : Ports := {}
+  /-- caller `i` = waiter thread `i` (its `Notified` slot is waiter `i` of `g`) -/
+  callers : List Caller := []
+  /-- `drain_and_wait` caller `i` has passed `drain.close` and is parked at `drain.status` -/
+  closed : List Bool := []
   c : Case := {}
   diverged : Bool := false
   deriving Inhabited
+
+def parseForm (s : String) : Form × Bool :=
+  match s with
+  | "waitT" => (.wait, true) | "stop" => (.stopWait, false) | "stopT" => (.stopWait, true)
+  | "kill" => (.killWait, false) | "killT" => (.killWait, true) | "drain" => (.drainWait, false)
+  | "drainT" => (.drainWait, true) | "join" => (.join, false) | _ => (.wait, false)
+
+def waiterAbandoned (g : G) (i : Nat) : Bool :=
+  match g.waiters[i]? with
+  | some ⟨.abandoned, _⟩ => true
+  | _ => false
+
+/-- the point the thread of caller `i` is parked at -/
+def callerAt (st : St) (i : Nat) : String :=
+  match st.callers[i]? with
+  | none => "done"
+  | some c =>
+    if waiterAbandoned st.g i then "done" else
+    match c.pc with
+    | .done _ => "done"
+    | .send => if c.form == .drainWait && st.closed.getD i false then "drain.status" else "wait.poll"
+    | .waiting => if c.form == .join then "wait.poll" else waiterAt st.g i
+
+def resName : Res → String
+  | .ok _ => "ok" | .sendErr => "err" | .timeout => "timeout"
+
+/-- `unwound`: a statement of `cleanup` panicked, so the actor's task ended by a panic and its join
+handle completes with `Err(JoinError)` -/
+def retSuffix (c : Caller) (unwound : Bool := false) : String :=
+  match c.pc with
+  | .done r =>
+    if c.form == .wait && !c.timed then " ret"
+    else if c.form == .join && unwound then " ret=err"
+    else s!" ret={resName r}"
+  | _ => ""
+
+def sf (st : St) : String := showFields st.g st.ports (st.c.cause == "stoppanic")
 
 def kv (ws : List String) (k : String) : Option String :=
   ws.findSome? (fun w => if w.startsWith (k ++ "=") then some (w.drop (k.length + 1)).toString else none)
 
 def fieldsOf (ws : List String) : List String :=
   ws.filter (fun w => ["st=", "name=", "succ=", "pid=", "pg=", "mon=", "kids=", "link=", "sup=", "post="].any (w.startsWith ·))
+
+/-- `Ok` was reported on this line (`ret` of a plain `wait(None)`, `ret=ok` of the other forms) -/
+def saysOk (iw : List String) : Bool := iw.contains "ret" || iw.contains "ret=ok"
 
 /-- a waiter returned on this line: the snapshot it sees must be that of a fully stopped actor —
 `ExitRace.snapshotOk` (the predicate of `C06.waiter_returns_only_after_full_stop`) on the
@@ -81,8 +133,18 @@ def step1 (st : St) (op impl : String) : St × StepOut :=
   match words op with
   | "case" :: cause :: n :: rest =>
     let post := cause == "stop" || cause == "drain" || cause == "stoppanic"
-    let nd := match rest with | [d] => d.toNat?.getD 0 | _ => 0
-    let g0 := init post [] [] (n.toNat?.getD 0) nd
+    let nd := match rest with | d :: _ => d.toNat?.getD 0 | _ => 0
+    let nw := n.toNat?.getD 0
+    let forms : List (Form × Bool) :=
+      match rest.find? (·.startsWith "forms=") with
+      | some f => ((f.drop 6).toString.splitOn ",").map parseForm
+      | none => List.replicate nw (.wait, false)
+    -- drainer slots: the `nd` late drainers, then one per `drain_and_wait` caller
+    let (callers, ndw) := forms.zipIdx.foldl (fun (acc : List Caller × Nat) (fi : (Form × Bool) × Nat) =>
+        let ((f, t), i) := fi
+        (acc.1 ++ [{ kid := 0, form := f, timed := t, w := i, d := nd + acc.2 }],
+         acc.2 + (if f == .drainWait then 1 else 0))) ([], 0)
+    let g0 := init post [] [] nw (nd + ndw)
     -- a kill signal makes the actor terminate its children before the exit sequence starts
     let g := if cause == "kill" then { g0 with sh := { g0.sh with flags := { g0.sh.flags with terminated := true } } }
       -- `drain()` has already published `Draining`
@@ -90,15 +152,21 @@ def step1 (st : St) (op impl : String) : St × StepOut :=
       -- unsupervised: never linked, nobody to notify (shown as `link=0 sup=0`)
       else if cause == "stoppanic" then { g0 with sh := { g0.sh with flags := { g0.sh.flags with unlinked := true } } }
       else g0
+    -- what the trigger did to the ports: `stop()` / `kill()` took the one-shot sender, `drain()` enqueued the
+    -- marker, a handler panic dropped the processing loop's future (and the port set with it)
+    let ports : Ports :=
+      { stop := !(cause == "stop" || cause == "stoppanic"), signal := cause != "kill", marker := cause == "drain",
+        rx0 := cause != "panic" }
     let (c, _) := track { cause := cause } iw
-    ({ g := g, c := c, diverged := false }, { model := s!"ok {showFields g (cause == "stoppanic")} at={exiterAt g}" })
+    ({ g := g, ports := ports, callers := callers, closed := List.replicate nw false, c := c, diverged := false },
+     { model := s!"ok {showFields g ports (cause == "stoppanic")} at={exiterAt g}" })
   | ["step", "e", point] =>
     let pre := exiterAt st.g
     -- cause `stoppanic`: the state's destructor panics inside `notify_supervisor`, i.e. the
     -- statement at `cleanup.notify` panics (once) and the guard's `Drop` re-runs `cleanup`
     let panics := st.c.cause == "stoppanic" && point == "cleanup.notify" && !st.g.exiter.unwound
     let g' := _root_.ExitRace.step st.g (if panics then .unwind else .e)
-    let model := (if pre == point then "" else s!"model-at={pre} ") ++ s!"{showFields g' (st.c.cause == "stoppanic")} at={exiterAt g'}"
+    let model := (if pre == point then "" else s!"model-at={pre} ") ++ s!"{sf { st with g := g' }} at={exiterAt g'}"
     let (c, orc) := track st.c iw
     let c := { c with unregRuns := c.unregRuns + (if point == "status.unreg_pid" then 1 else 0),
                       notifyRuns := c.notifyRuns + (if point == "notify.waiters" then 1 else 0) }
@@ -106,47 +174,79 @@ def step1 (st : St) (op impl : String) : St × StepOut :=
   | ["succ"] =>
     let g' := _root_.ExitRace.step st.g .succ
     let ok := st.g.sh.name == .none
-    let model := s!"{showFields g' (st.c.cause == "stoppanic")} at={if ok then "ok" else "refused"}"
+    let model := s!"{sf { st with g := g' }} at={if ok then "ok" else "refused"}"
     let (c, orc) := track st.c iw
     ({ st with g := g', c := { c with raced := true } }, { model := model, oracle := orc })
-  | ["step", w, "drain.status"] =>
-    match (w.drop 1).toString.toNat? with
-    | none => (st, { model := "bad-op" })
-    | some i =>
-      let g' := _root_.ExitRace.step st.g (.d i)
-      let model := s!"{showFields g' (st.c.cause == "stoppanic")} at=done"
-      let (c, orc) := track st.c iw
-      ({ st with g := g', c := { c with raced := true } }, { model := model, oracle := orc })
   | ["step", w, point] =>
     match (w.drop 1).toString.toNat? with
     | none => (st, { model := "bad-op" })
     | some i =>
-      let pre := waiterAt st.g i
-      let g' := _root_.ExitRace.step st.g (.w i)
-      let returned := match g'.waiters[i]? with
-        | some ⟨.returned _, _⟩ => true
-        | _ => false
-      let model := (if pre == point then "" else s!"model-at={pre} ") ++
-        s!"{showFields g' (st.c.cause == "stoppanic")} at={waiterAt g' i}{if returned then " ret" else ""}"
-      let (c, orc) := track st.c iw
-      let orc := orc ++ (if iw.contains "ret" && !returnOk c.cause iw then ["premature-return"] else [])
-      let c := { c with raced := c.raced || !st.g.exiter.finished }
-      ({ st with g := g', c := c }, { model := model, oracle := orc })
+      if w.startsWith "d" then
+        -- a late `drain()` thread: only its status `fetch_update` is a model step
+        let g' := _root_.ExitRace.step st.g (.d i)
+        -- … and then reaches `send_drain_marker` (`XTid.mark`)
+        let st' := { st with g := g', ports := { st.ports with marker := true } }
+        let model := s!"{sf st'} at=done"
+        let (c, orc) := track st.c iw
+        ({ st' with c := { c with raced := true } }, { model := model, oracle := orc })
+      else
+      match st.callers[i]? with
+      | none => (st, { model := "bad-op" })
+      | some cl =>
+        let pre := callerAt st i
+        let kid : Kid := { g := st.g, ports := st.ports }
+        let st' : St :=
+          if cl.pc == .send && cl.form == .drainWait && !(st.closed.getD i false) then
+            -- first poll of `drain_and_wait` up to `drain.status`: `close_message_admission` only
+            { st with closed := st.closed.set i true }
+          else
+            let r1 := callStep kid cl
+            -- the same poll goes on: `notified()` is created (join handle: polled)
+            let r2 := if cl.pc == .send && r1.2.pc == .waiting then callStep r1.1 r1.2 else r1
+            { st with g := r2.1.g, ports := r2.1.ports, callers := st.callers.set i r2.2 }
+        let cl' := (st'.callers[i]?).getD cl
+        let model := (if pre == point then "" else s!"model-at={pre} ") ++
+          s!"{sf st'} at={callerAt st' i}{retSuffix cl' st'.g.exiter.unwound}"
+        let (c, orc) := track st.c iw
+        -- the run-time oracle of every wait form: `Ok` ⇒ the snapshot is that of a fully stopped actor;
+        -- a join handle: completed (with `Ok` or `Err(JoinError)`) ⇒ fully stopped
+        let completed := saysOk iw || (cl.form == .join && iw.contains "ret=err")
+        let orc := orc ++ (if completed && !formOk (.ok (returnOk c.cause iw)) then ["premature-return"] else [])
+        let c := { c with raced := c.raced || !st.g.exiter.finished }
+        ({ st' with c := c }, { model := model, oracle := orc })
+  | ["timeout", w] =>
+    match w.toNat? with
+    | none => (st, { model := "bad-op" })
+    | some i =>
+      match st.callers[i]? with
+      | none => (st, { model := "bad-op" })
+      | some cl =>
+        let r := timeoutStep { g := st.g, ports := st.ports } cl
+        let st' := { st with g := r.1.g, ports := r.1.ports, callers := st.callers.set i r.2 }
+        let model := s!"{sf st'} at={callerAt st' i}{retSuffix r.2}"
+        let before := st.c.lastFields
+        let (c, orc) := track st.c iw
+        let orc := orc ++ (if fieldsOf iw == before then [] else ["timeout-effect"]) ++
+          (if saysOk iw && !formOk (.ok (returnOk c.cause iw)) then ["premature-return"] else [])
+        ({ st' with c := { c with raced := true } }, { model := model, oracle := orc })
   | ["abandon", w] =>
     match w.toNat? with
     | none => (st, { model := "bad-op" })
     | some i =>
       let g' := _root_.ExitRace.step st.g (.abandon i)
-      let model := s!"{showFields g' (st.c.cause == "stoppanic")} at={waiterAt g' i}"
+      let st' := { st with g := g' }
+      let model := s!"{sf st'} at={callerAt st' i}"
       let before := st.c.lastFields
       let (c, orc) := track st.c iw
       let orc := orc ++ (if fieldsOf iw == before then [] else ["timeout-effect"])
-      ({ st with g := g', c := { c with raced := true } }, { model := model, oracle := orc })
+      ({ st' with c := { c with raced := true } }, { model := model, oracle := orc })
   | "end" :: _ =>
     let g := st.g
-    let ws := g.waiters.map (fun w => match w.pc with
-      | .returned _ => "r" | .abandoned => "a" | _ => "p")
-    let model := s!"{showFields g (st.c.cause == "stoppanic")} waiters={if ws.isEmpty then "-" else ",".intercalate ws}"
+    let ws := st.callers.zipIdx.map (fun (cl, i) => match cl.pc with
+      | .done (.ok _) => if cl.form == .join && g.exiter.unwound then "e" else "r"
+      | .done .sendErr => "e" | .done .timeout => "t"
+      | _ => if waiterAbandoned g i then "a" else "p")
+    let model := s!"{sf st} waiters={if ws.isEmpty then "-" else ",".intercalate ws}"
     let (c, orc) := track st.c iw
     let implWs := ((kv iw "waiters").getD "-").splitOn ","
     let orc := orc ++
